@@ -542,7 +542,7 @@ Definition compile_data (d : fdata) : ctydecl := mkct CData (new_id (fdaname d))
 Definition compile_codata (d : fcodata) : ctydecl := mkct CCodata (new_id (fcoaname d)) (map compile_dtor (fcodtors d)).
 
 (* ---------- calls_main: `calls(term, "main")` of program.rs ----------
-   Until fix <commitmain> of /repo (legacy flag) compile_main gave the Core definition `main` no return-continuation
+   Until fix f929eb7 of /repo (legacy flag) compile_main gave the Core definition `main` no return-continuation
    parameter (its body ends in `exit`), but wc_call passes `args ++ [continuation]` to every callee: a call whose
    target is `main` had one argument too many; the Core machine was stuck "call-arity", natively the extra argument
    was ignored and the callee exited the process instead of returning (former finding call-to-main).
@@ -608,7 +608,7 @@ Definition compile_prog_gen (lg : bool) (p : fcprog) : res cprog :=
   let used_labels := map fdname (fcpdefs p) in
   dor defs <- compile_defs lg (calls_main_prog p) (fcpdefs p) codata_types used_labels [] [];
   Ok (mkcp defs data_types codata_types 0).
-(* the current translation, and the one before the fixes 126604b (goto), d5d4151 (capture) and <commitmain> (calls of
+(* the current translation, and the one before the fixes 126604b (goto), d5d4151 (capture) and f929eb7 (calls of
    main) of /repo (regression lemmas only) *)
 Definition compile_prog (p : fcprog) : res cprog := compile_prog_gen false p.
 Definition compile_prog_before_fix (p : fcprog) : res cprog := compile_prog_gen true p.
@@ -888,7 +888,7 @@ Fixpoint goto_type_mismatch (env : list (string * option fty)) (t : fterm) : boo
 Definition goto_type_mismatch_prog (p : fcprog) : bool :=
   existsb (fun d => goto_type_mismatch (env_of_ctx (fdctx d) []) (fdbody d)) (fcpdefs p).
 
-(* calls_main / calls_main_prog (the detector of the former finding call-to-main; since fix <commitmain> part of the
+(* calls_main / calls_main_prog (the detector of the former finding call-to-main; since fix f929eb7 part of the
    translation itself): see the section program.rs above *)
 
 (* the witness (corpus/fun/call_main_nontail.sc as the type checker annotates it; tied to the real
